@@ -5,12 +5,15 @@
 package vexp
 
 import (
+	"io"
+
 	"github.com/benhoyt/goawk/internal/vexec"
 	"github.com/benhoyt/goawk/internal/vhook"
 )
 
 type OsEvent = vhook.OsEvent
 
+func SetReaderFn(f func(r io.Reader) io.Reader)    { vhook.ReaderFn = f }
 func SetStepFn(f func())                           { vhook.StepFn = f }
 func SetPermFn(f func(site string, n int) []int)   { vhook.PermFn = f }
 func SetSiteSeen(f func(site string, n int))       { vhook.SiteSeen = f }
